@@ -31,6 +31,98 @@ def _str_index(fn, site, za):
     return ok_all, "; ".join(why)
 
 
+_ASCII_PRED = ("is_ascii_digit", "is_ascii_hexdigit", "is_ascii_alphabetic", "is_ascii_alphanumeric", "is_ascii_punctuation", "is_ascii_graphic", "is_ascii_whitespace", "is_ascii_control", "is_ascii_lowercase", "is_ascii_uppercase", "is_ascii")
+
+
+def _ascii_prefix_count(prog, fn, o):
+    """is `o` the number of leading characters of a string that satisfy an ASCII-only predicate —
+    `s.chars().take_while(char::is_ascii_digit).count()` — and of which string? Such a count is also the byte length of
+    that prefix: a char boundary of s, not beyond its end. Returns the Origin of s or None."""
+    s = prim.expand_single_def_vars(fn, o).strip()
+    if not (s.k == "call" and s.a["name"] == "count" and s.kids):
+        return None
+    tw = s.kids[0].strip()
+    if not (tw.k == "call" and tw.a["name"] == "take_while" and len(tw.kids) == 2):
+        return None
+    pred = tw.kids[1].strip()
+    ok = False
+    txt = pred.fmt()
+    if any(txt.endswith("::" + n) or ("::" + n + "'") in txt or ("::%s" % n) in str(pred.a) for n in _ASCII_PRED):
+        ok = True
+    elif pred.k == "agg" and str(pred.a).startswith("closure:"):
+        cf = prog.fns.get(str(pred.a).split(":", 1)[1])
+        if cf is not None:
+            r = prim.origin_of_local(cf, 0).strip()
+            ok = r.k == "call" and r.a["name"] in _ASCII_PRED
+    if not ok:
+        return None
+    src = tw.kids[0].strip()
+    while src.k == "call" and src.a["name"] in ("take", "by_ref", "peekable") and src.kids:
+        src = src.kids[0].strip()       # `take(n)` only shortens the run
+    if not (src.k == "call" and src.a["name"] == "chars" and src.kids):
+        return None
+    return src.kids[0]
+
+
+def _prefix_count_unwrap(prog, site):
+    """`helper(n).unwrap()` where the helper of this crate fails only when n is not a char-boundary offset inside its string
+    (all its failure values come from split_at_checked / get on that string with that very parameter) and n is the
+    length of an ASCII prefix of the same string, counted with nothing in between that could change the string"""
+    fn, t = site.fn, site.term
+    if not t.args:
+        return False, ""
+    recv = prim.expand_single_def_vars(fn, prim.origin_of_operand(fn, t.args[0])).strip()
+    if not (recv.k == "call" and recv.a["callee"].startswith("findutils::") and len(recv.kids) == 2):
+        return False, ""
+    hf = prog.fns.get(recv.a["callee"].split("::<")[0]) or prog.fns.get(recv.a["callee"])
+    if hf is None or hf.arg_count != 2:
+        return False, ""
+    counted = _ascii_prefix_count(prog, fn, recv.kids[1])
+    if counted is None:
+        return False, ""
+    # the helper: every alternative of its result that is not the success variant comes from a checked split/get of
+    # a field of its receiver at its second parameter
+    ret = prim.origin_of_local(hf, 0)
+    fields = set()
+    for alt in prim.flatten_phi(ret):
+        a = alt.strip()
+        if a.k == "agg" and (str(a.a).endswith("Result::Ok") or str(a.a).endswith("Option::Some")):
+            continue
+        cn = [x for x in a.call_nodes() if x.a["name"] in ("split_at_checked", "get", "split_at_mut_checked", "is_char_boundary")]
+        if not cn or not any(y.k == "arg" and y.a.get("idx") == 2 for x in cn for y in x.walk()):
+            return False, "the helper %s can fail for another reason (%s)" % (prim.short(hf.path), a.fmt()[:80])
+        for x in cn:
+            fs = [y.a for y in x.kids[0].walk() if y.k == "field"] if x.kids else []
+            if not fs or not any(y.k == "arg" and y.a.get("idx") == 1 for y in x.kids[0].walk()):
+                return False, "the helper slices %s" % x.kids[0].fmt()[:60]
+            fields.add(fs[-1] if fs else None)
+    if len(fields) != 1:
+        return False, "the helper slices %s" % sorted(map(str, fields))
+    fld = list(fields)[0]
+    # the counted string is that field of the same receiver
+    cs = counted.strip()
+    same = any(y.k == "field" and y.a == fld for y in counted.walk()) and [y.a.get("idx") for y in counted.walk() if y.k == "arg"] == [y.a.get("idx") for y in recv.kids[0].walk() if y.k == "arg"]
+    if not same:
+        return False, "the prefix was counted on %s, the helper slices its receiver's `%s`" % (counted.fmt()[:60], fld)
+    # nothing between the count and the call hands out the receiver mutably or assigns the field
+    cnt_call = next((x for x in prim.expand_single_def_vars(fn, recv.kids[1]).call_nodes() if x.a["name"] == "count"), None)
+    cb = cnt_call.a.get("bb") if cnt_call is not None else None
+    hb = recv.a.get("bb")
+    if cb is None or hb is None or not fn.dominates(cb, hb):
+        return False, "the count does not dominate the call"
+    between = (fn.reach_from([cb]) & {b for b in fn.reachable() if hb in fn.reach_from([b]) or b == hb}) - {hb}
+    for b in between:
+        if b == cb:
+            continue
+        tb = fn.blocks[b].term
+        if tb.k == "call" and any(a.place is not None and prim.origin_of_operand(fn, a).fmt().startswith("&") and fn.local_ty(a.place.local).startswith("&mut") for a in tb.args if a.place is not None and a.place.is_local()):
+            return False, "a call between the count and the slice receives a mutable reference"
+        for st in fn.blocks[b].stmts:
+            if st.lhs is not None and fld in st.lhs.field_names():
+                return False, "the field is assigned between the count and the slice"
+    return True, "%s fails only when its offset is not a char boundary inside self.%s; the offset is the number of leading ASCII characters of that same string (%s), which is the byte length of that prefix" % (prim.short(hf.path), fld, cnt_call.fmt()[:80] if cnt_call is not None else "")
+
+
 def _guard_region(fn, t):
     """blocks in which the guard returned by a borrow may be alive: from the call's return up to the drop of the guard's
     temporary on every path; the whole rest of the function when the guard is moved or not dropped on some path"""
@@ -177,6 +269,15 @@ def run(ctx, rule, roots, label, exclude_prefix=()):
             r = panic.t2(s)
             if r:
                 status, why = r
+            elif s.kind == "unwrap":
+                try:
+                    okp, whyp = _prefix_count_unwrap(prog, s)
+                except Exception:
+                    okp, whyp = False, ""
+                if okp:
+                    status, why = "T1(S1)", whyp
+                elif whyp:
+                    why = whyp
         s.status = status or "open"
         s.detail = why
     # T3: reviewed entries. An entry is matched to a site of the same function, kind and description; the ordinal in
